@@ -199,3 +199,56 @@ class PCreateTablespace:
                 p[0] = {"tablespace_name": name, "properties": None, "type": p[2], "temporary": False}
         else:
             p[0] = {"tablespace_name": name, "properties": None, "type": p[2], "temporary": p[3].upper() == "TEMPORARY"}
+
+
+# ------------------------------------------------------------------ a TABLESPACE clause on any statement
+MARKER_KEYS = ["table_name", "sequence_name", "type_name", "domain_name", "schema_name", "tablespace_name", "database_name"]
+
+
+def entity_so_far(G, case):
+    """the statement collected so far: exactly ONE kind key (of the case), a name, and an opaque rest"""
+    return G.record({case["marker"]: G.str("entity name", NAME), "rest": G.str("rest of the statement")}, {"schema": ("has schema", G.str("schema", NAME))})
+
+
+@contract
+class TablespaceClauseKeepsKind:
+    """expr : expr tablespace - the clause is stored as ONE nested record under `tablespace`; the statement keeps every key
+    it had and gains no other: in particular it still has exactly one kind key, so a database / schema / type / table with
+    a TABLESPACE clause is still filed under its own kind (C13)"""
+    fn = "dialects.sql.BaseSQL.p_expr_tablespace"
+    props = ["C18", "C13", "C11"]
+    observable = "result"
+    cases = {"on a %s" % m.replace("_name", ""): dict(marker=m) for m in ("table_name", "database_name", "schema_name", "type_name", "domain_name")}
+
+    def build(G, case):
+        clause = {"tablespace_name": G.str("ts", NAME), "properties": None, "type": None, "temporary": False}
+        return dict(args=[G.parser(), production(G, "expr tablespace", {1: entity_so_far(G, case), 2: clause})])
+
+    def spec(case, self_, p):
+        p[0] = p[1]
+        p[0]["tablespace"] = p[2]
+
+    def ensures(case, old, new, result):
+        ent = new[1][0]
+        return len([k for k in MARKER_KEYS if k in ent]) == 1
+
+
+@contract
+class PDropTable:
+    """DROP TABLE [schema.]name is reported as a table-kind record naming exactly that table (it registers the name like a
+    definition does: C03 / C04 rely on "the latest record of that name"); one kind key, so it has a bucket (C13)"""
+    fn = "dialects.sql.Drop.p_expression_drop_table"
+    props = ["C18", "C13", "C03", "C04", "C06", "C12"]
+    cases = {"DROP TABLE id": dict(schema=False), "DROP TABLE id DOT id": dict(schema=True)}
+
+    def build(G, case):
+        return dict(args=[G.parser(), production(G, case["_name"], {})])
+
+    def spec(case, self_, p):
+        if case["schema"]:
+            p[0] = {"schema": p[3], "table_name": p[5]}
+        else:
+            p[0] = {"schema": None, "table_name": p[3]}
+
+    def ensures(case, old, new, result):
+        return len([k for k in MARKER_KEYS if k in new[1][0]]) == 1
